@@ -675,12 +675,18 @@ func (e *Env) RAttachWithinFile() {
 				return true
 			}
 			iv, _ := init.Lhs[0].(*ast.Ident)
+			var ivObj types.Object // `for i := from` and `for i = from` (a named result as counter)
+			if iv != nil {
+				if ivObj = info.Defs[iv]; ivObj == nil {
+					ivObj = info.Uses[iv]
+				}
+			}
 			// does the body index f.fragments with the loop variable?
 			idx := false
 			ast.Inspect(fs.Body, func(m ast.Node) bool {
 				if ix, ok := m.(*ast.IndexExpr); ok {
 					if se, ok := ix.X.(*ast.SelectorExpr); ok && se.Sel.Name == "fragments" {
-						if id, ok := ix.Index.(*ast.Ident); ok && iv != nil && info.Uses[id] == info.Defs[iv] {
+						if id, ok := ix.Index.(*ast.Ident); ok && ivObj != nil && info.Uses[id] == ivObj {
 							idx = true
 						}
 					}
@@ -708,7 +714,7 @@ func (e *Env) RAttachWithinFile() {
 								// one of the arguments is the visited fragment
 								for _, a := range call.Args {
 									if ix, ok := ast.Unparen(a).(*ast.IndexExpr); ok {
-										if id, ok := ix.Index.(*ast.Ident); ok && iv != nil && info.Uses[id] == info.Defs[iv] {
+										if id, ok := ix.Index.(*ast.Ident); ok && ivObj != nil && info.Uses[id] == ivObj {
 											cmp = true
 										}
 									}
